@@ -31,6 +31,10 @@ var helperPkgs = map[string]map[string]string{
 	"h2/tpl": {"t.go": "package tpl\n\ntype T int\n"},
 	"internal/it": {"t.go": "package it\n\ntype T struct{ X int }\n"},
 	"h3/other": {"t.go": "package other\n\ntype U[T any] struct{ V T }\n\ntype S []int\n\ntype E interface{}\n\ntype Fn func(int) string\n"},
+	// far is imported by mid only: the methods of mid's interfaces mention its types, and a package that
+	// embeds (or renames) one of them inherits a method whose types come from a package it does not import
+	"h4/far": {"t.go": "package far\n\ntype Conn interface{ Close() error }\n\ntype Buf struct{ B []byte }\n\ntype Mode int\n"},
+	"h5/mid": {"t.go": "package mid\n\nimport \"gen.test/h4/far\"\n\ntype Mode int\n\ntype Taker interface {\n\tTake(m Mode) (far.Conn, *far.Buf, error)\n}\n\ntype Fetcher interface {\n\tFetch(k string, ms ...far.Mode) far.Buf\n}\n\ntype Both interface {\n\tTaker\n\tFetcher\n}\n"},
 }
 
 type tyGen struct {
@@ -50,6 +54,8 @@ var importClause = map[string]string{
 	"tpl2":    `tpl2 "gen.test/h2/tpl"`,
 	"it":      `"gen.test/internal/it"`,
 	"other":   `"gen.test/h3/other"`,
+	"mid":     `"gen.test/h5/mid"`,
+	"http":    `"net/http"`,
 }
 
 func (g *tyGen) use(p, t string) string {
@@ -435,6 +441,19 @@ func genPackage(r *rand.Rand, idx int) job {
 			g.used["io"] = true
 			decls = append(decls, fmt.Sprintf("type %s = %s\n", n, pick(r, []string{"io.Reader", "io.ReadCloser", "io.Writer"})))
 		case 9:
+			if r.Intn(2) == 0 {
+				// a foreign interface under a new name (alias or defined type): its methods come with it
+				e := pick(r, []string{"mid.Taker", "mid.Fetcher", "mid.Both", "http.Hijacker"})
+				g.used[e[:strings.Index(e, ".")]] = true
+				decls = append(decls, fmt.Sprintf("type %s %s%s\n", n, pick(r, []string{"", "= "}), e))
+				if exported {
+					g.own = append(g.own, n)
+					ifaces = append(ifaces, n)
+				} else {
+					g.ownUnexp = append(g.ownUnexp, n)
+				}
+				continue
+			}
 			g.used["other"] = true
 			decls = append(decls, fmt.Sprintf("type %s = %s\n", n, pick(r, []string{"other.U[int]", "other.S", "other.E"})))
 		default:
@@ -497,6 +516,11 @@ func genPackage(r *rand.Rand, idx int) job {
 					ms = append(ms, "interface{ Flush() error }")
 				case q == 8:
 					ms = append(ms, "any")
+				case q == 9 || q == 10:
+					// an interface of another package whose methods mention types of a third one
+					e := pick(r, []string{"mid.Taker", "mid.Fetcher", "mid.Both", "mid.Taker", "http.Hijacker", "http.ResponseWriter"})
+					g.used[e[:strings.Index(e, ".")]] = true
+					ms = append(ms, e)
 				default:
 					ms = append(ms, mn.fresh("M", true)+g.signature())
 				}
@@ -616,7 +640,7 @@ func genPackage(r *rand.Rand, idx int) job {
 		}
 		b.WriteString(")\n\n")
 		// keep every import used whatever the random choices were
-		uses := map[string]string{"io": "io.Reader", "reflect": "reflect.Value", "unsafe": "unsafe.Pointer", "tpl": "tpl.T", "tpl2": "tpl2.T", "it": "it.T", "other": "other.S"}
+		uses := map[string]string{"io": "io.Reader", "reflect": "reflect.Value", "unsafe": "unsafe.Pointer", "tpl": "tpl.T", "tpl2": "tpl2.T", "it": "it.T", "other": "other.S", "mid": "mid.Mode", "http": "http.Handler"}
 		var ks []string
 		for p := range g.used {
 			ks = append(ks, p)
